@@ -106,8 +106,21 @@ def run_cases(mod, sp, specs, log):
         if oracle is not None and (oracle_always or d):
             try:
                 ofail = list(oracle(sp, s) or [])
-            except Exception as e:  # an oracle crash is an infrastructure problem, not a violation
-                raise RuntimeError('oracle crashed on %s: %s\n%s' % (jdump(s)[:300], e, traceback.format_exc()))
+            except Exception as e:
+                # An exception that escapes from LIBRARY code (innermost frame inside the overlay or the
+                # compiled kernel) while the implementation also disagrees with the model on this input is a
+                # failure of the property on this input (the experiment could not be completed because the
+                # code raised where the model computes a value).  Anything else is an oracle crash, i.e. an
+                # infrastructure problem, not a violation.
+                tb = traceback.extract_tb(e.__traceback__)
+                lib_dir = os.path.dirname(os.path.abspath(sp.__file__))
+                last = tb[-1].filename if tb else ''
+                in_lib = os.path.abspath(last).startswith(lib_dir) or last.replace('\\', '/').endswith('splipy/basis_eval.pyx')
+                if in_lib and d:
+                    ofail = ['the library raised %s (%s) inside the property experiment, at %s:%s; model and implementation '
+                             'disagree on this input as well' % (type(e).__name__, str(e)[:120], os.path.basename(last), tb[-1].lineno)]
+                else:
+                    raise RuntimeError('oracle crashed on %s: %s\n%s' % (jdump(s)[:300], e, traceback.format_exc()))
         results.append({'spec': s, 'line': ln, 'impl': iv, 'model': mv, 'diff': d, 'oracle': ofail})
     log['impl_s'] = log.get('impl_s', 0) + time.time() - t0
     return results
